@@ -1234,12 +1234,20 @@ func r14_2(c *Ctx, rule string) {
 			return true
 		}
 		if rs := eng.ResolveAll(v); len(rs) > 1 || (len(rs) == 1 && rs[0] != v) {
+			n := 0
 			for _, r := range rs {
+				// (the zero value a helper returns next to its error)
+				if k, isK := r.(*ssa.Const); isK && len(rs) > 1 {
+					if sv, isS := eng.ConstString(k); isS && sv == "" {
+						continue
+					}
+				}
+				n++
 				if !onlySrcRoot(r, d+1, seen) {
 					return false
 				}
 			}
-			return true
+			return n > 0
 		}
 		switch x := v.(type) {
 		case *ssa.Phi:
